@@ -287,6 +287,28 @@ theorem c32_unfixed_fragment_dropped (env : Env) (gwHost : Bytes) (r : Req) (inl
   all_goals first | (simp at h; done) | (simp_all; done) | (simp at h; subst h; simp)
 
 
+/-- **A single-label name with its own DNSLink record keeps its name.** On `<label>.ipns.<gw>` where `label` is not a
+CID, the content path is `/ipns/<un-inlined label>` when the un-inlined FQDN has a DNSLink record, and
+`/ipns/<label>` itself when only the literal label has one (hyphenated single-label names are not renamed). -/
+theorem c32_subdomain_label_dnslink_name (env : Env) (cfg : Config) (gwHost label : Bytes) (rq : Req) (gw : GW)
+    (heff : effectiveHost rq = label ++ 46 :: (IPNS ++ 46 :: gwHost)) (huri : rq.uri = .absent)
+    (hnc : env.codecs.decode label = none) (hcfg : Serves cfg gwHost gw IPNS label) :
+    (env.hasDNSLink (uninlineDNSLink label) = true → 46 ∉ label → 45 ∈ label →
+      handle true true env cfg rq = .next (ipnsSlash ++ uninlineDNSLink label ++ rq.path) (.subdomain gwHost)) ∧
+    (env.hasDNSLink (uninlineDNSLink label) = false → env.hasDNSLink label = true →
+      handle true true env cfg rq = .next ((47 :: IPNS ++ 47 :: label) ++ rq.path) (.subdomain gwHost)) := by
+  have hns : isSubdomainNamespace IPNS = true := by decide
+  have hdot : 46 ∉ IPNS := by decide
+  have hksd := knownSubdomainDetails_hit cfg label IPNS gwHost gw hcfg.known hns hdot hcfg.noSuffixGateway
+  have hh := handle_subdomain_name true true env cfg gwHost label rq gw heff hcfg.subdomainNotGateway hksd
+    hcfg.useSubdomains hcfg.servesPath hnc
+  rw [handle_absent _ _ _ _ _ huri, hh]
+  constructor
+  · intro h1 h2 h3
+    simp [contains_false.mpr h2, contains_iff.mpr h3, h1]
+  · intro h1 h2
+    cases hc : (!contains 46 label && contains 45 label) <;> simp [h1, h2]
+
 /-! ## host → DNSLink content path -/
 
 /-- **A DNSLink host is served under its DNSLink name.** Whenever a request is handed to the next handler as a
